@@ -425,6 +425,9 @@ func (c *Ctx) writeWidthPreconditions(rels ...string) {
 				c.ok(R, key, cl.Pos(), "width proved <= 64")
 			} else if why, ok := excLookupS(excWidth, key); ok {
 				c.exc(R, key, cl.Pos(), why)
+			} else if _, fn, isF := fieldOfLoad(stripConv(w)); isF && fn == "Len" && derivesFrom(w, callResult(tlbPath+".ParseTag"), false) {
+				// the length of a tag parsed from a struct tag, wherever the tag is written
+				c.exc(R, key, cl.Pos(), excWidth["tlb.encodeSumTag boc.Cell.WriteUint width *&t.Len"])
 			} else {
 				c.bad(R, key, cl.Pos(), fmt.Sprintf("%s is called with a width not proved <= 64: above 64 bits the writer silently emits zeros for the high positions instead of failing", shortQ(q)))
 			}
